@@ -1,6 +1,6 @@
 (* Props/C05.v -- property C05: a downlink is accepted iff it is authentic and fresh. *)
 From Coq Require Import NArith ZArith List Bool Lia.
-From LoraV Require Import Base.Bytes Model.Frame Spec.L2Frame Model.Region Model.Mac Proofs.FcntProofs Proofs.SessionProofs Model.NbDev Proofs.AsyncProofs Proofs.DownHistory.
+From LoraV Require Import Base.Bytes Model.Frame Spec.L2Frame Model.Region Model.Mac Proofs.FcntProofs Proofs.SessionProofs Model.NbDev Model.AsyncDev Proofs.AsyncProofs Proofs.DownHistory Proofs.AsyncDownHistory.
 Import ListNotations.
 Local Open Scope N_scope.
 
@@ -53,6 +53,13 @@ Section C05.
                      (match snd x with RaRxDone p => bytes_ok p = true | _ => True end)) evs ->
     inc_from a (downs (nb_resps enc mac_fn st m e evs)).
   Proof. exact (nb_downlinks_strictly_increase enc mac_fn). Qed.
+
+  (* ... and of the async_device front-end: over EVERY sequence of send / rxc_listen calls against any radio script (timeouts, errors, any
+     received byte strings in RX1 / RX2 / Class C reception, pending receptions) with a fault at any radio call, the counters the API reports
+     as DownlinkReceived are strictly increasing and above the last accepted one *)
+  Theorem C05_async_downlinks_strictly_increase : forall s ops a d e, JD s a d -> script_ok e -> Forall dop_ok ops ->
+    inc_from a (adowns (arun_res enc mac_fn d e ops)).
+  Proof. exact (async_downlinks_strictly_increase enc mac_fn). Qed.
 End C05.
 
 (* non-vacuity / reading aid: what inc_from says *)
